@@ -134,7 +134,12 @@ func (k Key) ValidateChannel(ch *Channel) bool {
 		if target == 1325880984 { // Key target was "#/" (1325880984 == hash(""))
 			return true
 		}
-		return target == ch.Target()
+
+		if target == ch.Target() {
+			return true
+		}
+
+		// Otherwise, the target may consist of wildcards (+) only, followed by a multi-level wildcard
 	}
 
 	// Trim right `/`
@@ -150,26 +155,28 @@ func (k Key) ValidateChannel(ch *Channel) bool {
 		parts = parts[0 : len(parts)-1]
 	}
 
-	maxDepth := 0
+	// The path only encodes which of the parts of the target are literal, hence what we know
+	// is the depth of the last literal part. The target may have more wildcard (+) parts after it.
+	minDepth := 0
 	for i := uint32(0); i < 23; i++ {
 		if ((targetPath >> i) & 1) == 1 {
-			maxDepth = 23 - int(i)
+			minDepth = 23 - int(i)
 			break
 		}
 	}
 
-	// If no depth defined, all the parts in key target were wildcards (+)
-	// We need to compare the key hash with the whole channel we received.
-	if maxDepth == 0 {
-		maxDepth = len(parts)
+	// Get the first bit, whether the key is the exact match or not. If it is not, a multi-level
+	// wildcard (#) at the end of the channel stands for at least one more part.
+	keyIsExactTarget := ((targetPath >> 23) & 1) == 1
+	if wc && !keyIsExactTarget {
+		parts = append(parts, "+")
 	}
 
-	// Get the first bit, whether the key is the exact match or not
-	keyIsExactTarget := ((targetPath >> 23) & 1) == 1
-	if len(parts) < maxDepth || (keyIsExactTarget && len(parts) != maxDepth) {
+	if len(parts) < minDepth || len(parts) == 0 {
 		return false
 	}
 
+	// Replace the parts which are not literal in the target by wildcards
 	for idx, part := range parts {
 		if ((targetPath >> (22 - uint32(idx))) & 1) == 1 {
 			if part == "+" {
@@ -180,10 +187,23 @@ func (k Key) ValidateChannel(ch *Channel) bool {
 		}
 	}
 
-	newChannel := strings.Join(parts[0:maxDepth], "/")
+	// If the key is the exact match, the channel needs to have exactly the same depth as
+	// the target which is covered by the hash.
+	if keyIsExactTarget {
+		return hash.OfString(strings.Join(parts, "/")) == target
+	}
 
-	h := hash.OfString(newChannel)
-	return h == target
+	// Otherwise, the target ends at the last literal part or at one of the wildcards (+) which follow it
+	if minDepth == 0 {
+		minDepth = 1
+	}
+
+	for depth := minDepth; depth <= len(parts); depth++ {
+		if hash.OfString(strings.Join(parts[0:depth], "/")) == target {
+			return true
+		}
+	}
+	return false
 }
 
 // SetTarget sets the target channel for the key.
